@@ -1,5 +1,6 @@
 """C03 -- RELION <-> cryoCAT conversion preserves each particle's pose and identity"""
 from .common import *
+from . import C01 as _c01
 from sa import apicompat
 from . import C02 as _star
 
@@ -517,6 +518,7 @@ def o311(ctx):
 
 def _obligations():
     return [
+        Obligation("O3.20", "EM files given by path: read_in returns every particle of the file, fields named in EM order, and a list made from a path holds that table (shared with C01)", _c01.o12, floor=20),
         Obligation("O3.12", "pixel size on import: own column, else the single optics group's value for every particle, else 1.0", o312, floor=3),
         Obligation("O3.11", "version detection from block names / name columns, with and without an optics block", o311, floor=11),
         Obligation("O3.10", "write_out leaves the exported list unchanged (all versions, optics on/off)", o310, floor=6),
